@@ -189,3 +189,7 @@ def run(ctx):
         nb = R.seqno_draw_blocks(ctx, fn)
         ok = len(nb) == 1 and not A.in_cycle(fn, nb[0])
         ctx.ob("R-C01.3", fn, "one-fresh-seqno", ok, "one seqno.next() per write operation" if ok else "%d seqno draws" % len(nb), nontrivial=False)
+
+    # ---- R-C01.4 a committed transaction equals its buffered writes: newest write per key, once, for every keyspace (shared with C08)
+    from . import C08
+    C08.commit_rules(ctx, "R-C01.4")
